@@ -71,7 +71,7 @@ Definition is_inbox (n : str) : bool := str_eqb (to_upper n) INBOX.
 Definition flat_step (s : store) (o : op) : bool :=
   match o with
   | OCreate n _ => negb (contains_byte (trim_suffix n [SLASH]) SLASH)
-  | ORename a b _ => negb (contains_byte b SLASH) && negb (sql_like (a ++ [SLASH; c_pct]) b)
+  | ORename a b _ => negb (contains_byte b SLASH) && negb (has_prefix b (a ++ [SLASH]))
                      && match children s a with [] => true | _ => false end
   | _ => true
   end.
